@@ -180,10 +180,40 @@ func c17EditRegions(r *an.Run) {
 		return
 	}
 	var regions ssa.Value
-	for _, b := range f.Blocks {
-		for _, in := range b.Instrs {
-			if ms, ok := in.(*ssa.MakeSlice); ok && strings.HasSuffix(an.ShortType(ms.Type()), "astdiff.Region") {
-				regions = ms
+	findMake := func(g *ssa.Function) ssa.Value {
+		var out ssa.Value
+		for _, b := range g.Blocks {
+			for _, in := range b.Instrs {
+				if ms, ok := in.(*ssa.MakeSlice); ok && strings.HasSuffix(an.ShortType(ms.Type()), "astdiff.Region") {
+					out = ms
+				}
+			}
+		}
+		return out
+	}
+	regions = findMake(f)
+	walk := f          // the function that walks the edit script
+	var made ssa.Value // the slice as the function that fills it sees it
+	made = regions
+	if regions == nil {
+		// the regions may be computed by a private helper that returns the slice it made
+		for _, c := range an.Calls(f) {
+			call, ok := c.(*ssa.Call)
+			if !ok || !strings.HasSuffix(an.ShortType(call.Type()), "astdiff.Region") {
+				continue
+			}
+			if h := an.StaticCallee(call); h != nil && an.InModule(h) && h.Blocks != nil {
+				if ms := findMake(h); ms != nil {
+					all := true
+					for _, ret := range an.Returns(h) {
+						if len(ret.Results) != 1 || ret.Results[0] != ms {
+							all = false
+						}
+					}
+					if all {
+						regions, made, f = call, ms, h
+					}
+				}
 			}
 		}
 	}
@@ -203,15 +233,21 @@ func c17EditRegions(r *an.Run) {
 	var fillLoop *an.Loop
 	var local *ssa.Alloc
 	for _, in := range an.StoresIn(f) {
+		if st, ok := in.(*ssa.Store); ok {
+			if ia, ok := st.Addr.(*ssa.IndexAddr); ok && ia.X == made {
+				fillLoop = an.LoopOf(f, st.Block())
+				if ld, ok := st.Val.(*ssa.UnOp); ok {
+					local, _ = ld.X.(*ssa.Alloc)
+				}
+			}
+		}
+	}
+	for _, in := range an.StoresIn(walk) {
 		st, ok := in.(*ssa.Store)
 		if !ok {
 			continue
 		}
-		if ia, ok := st.Addr.(*ssa.IndexAddr); ok && ia.X == regions {
-			fillLoop = an.LoopOf(f, st.Block())
-			if ld, ok := st.Val.(*ssa.UnOp); ok {
-				local, _ = ld.X.(*ssa.Alloc)
-			}
+		if ia, ok := st.Addr.(*ssa.IndexAddr); ok && ia.X == made {
 			continue
 		}
 		fa, ok := st.Addr.(*ssa.FieldAddr)
@@ -219,7 +255,7 @@ func c17EditRegions(r *an.Run) {
 			continue
 		}
 		nArm++
-		r.Check(isRegionElem(st.Val), short(f)+"|edit-reports-its-region", st.Pos(), "the region reported for a modified or deleted element is the one computed for it (regions[i]), not a widened one (got %s)", an.Describe(st.Val))
+		r.Check(isRegionElem(st.Val), short(walk)+"|edit-reports-its-region", st.Pos(), "the region reported for a modified or deleted element is the one computed for it (regions[i]), not a widened one (got %s)", an.Describe(st.Val))
 	}
 	r.Count("edit arms that set the region", nArm)
 	r.Min("edit arms that set the region", 2)
@@ -517,20 +553,21 @@ func slotIsTheRecordedSlot(r *an.Run, rule string) {
 		return
 	}
 	// a field of the current match, by the type of the field (the parent node, the field name, the index)
-	matchField := func(v ssa.Value, typ string) bool {
+	type matchPred func(ssa.Value) bool
+	matchField := func(v ssa.Value, typ string, isMatch matchPred) bool {
 		u, ok := an.Unwrap(v).(*ssa.UnOp)
 		if !ok {
 			return false
 		}
 		fa, ok := u.X.(*ssa.FieldAddr)
-		if !ok || !site.isMatch(fa.X) {
+		if !ok || !isMatch(fa.X) {
 			return false
 		}
 		return an.ShortType(u.Type()) == typ
 	}
-	var recorded func(v ssa.Value, depth int) string
-	recorded = func(v ssa.Value, depth int) string {
-		if depth > 8 {
+	var recordedIn func(v ssa.Value, isMatch matchPred, depth int) string
+	recordedIn = func(v ssa.Value, isMatch matchPred, depth int) string {
+		if depth > 10 {
 			return "too deep"
 		}
 		switch x := v.(type) {
@@ -539,7 +576,7 @@ func slotIsTheRecordedSlot(r *an.Run, rule string) {
 				if e == v {
 					continue
 				}
-				if why := recorded(e, depth+1); why != "" {
+				if why := recordedIn(e, isMatch, depth+1); why != "" {
 					return why
 				}
 			}
@@ -547,26 +584,56 @@ func slotIsTheRecordedSlot(r *an.Run, rule string) {
 		case *ssa.Call:
 			switch {
 			case an.IsCallTo(x, rvIndex):
-				if !matchField(x.Call.Args[1], "int") {
+				if !matchField(x.Call.Args[1], "int", isMatch) {
 					return "the element index is not the recorded index of the match (" + an.Describe(x.Call.Args[1]) + ")"
 				}
-				return recorded(x.Call.Args[0], depth+1)
+				return recordedIn(x.Call.Args[0], isMatch, depth+1)
 			case an.IsCallTo(x, "(reflect.Value).FieldByName"):
-				if !matchField(x.Call.Args[1], "string") {
+				if !matchField(x.Call.Args[1], "string", isMatch) {
 					return "the field name is not the recorded field of the match (" + an.Describe(x.Call.Args[1]) + ")"
 				}
-				return recorded(x.Call.Args[0], depth+1)
+				return recordedIn(x.Call.Args[0], isMatch, depth+1)
 			case an.IsCallTo(x, "reflect.Indirect", "(reflect.Value).Elem"):
-				return recorded(x.Call.Args[0], depth+1)
+				return recordedIn(x.Call.Args[0], isMatch, depth+1)
 			case an.IsCallTo(x, "reflect.ValueOf"):
-				if !matchField(x.Call.Args[0], "ast.Node") {
+				if !matchField(x.Call.Args[0], "ast.Node", isMatch) {
 					return "the node whose field is written is not the recorded parent of the match (" + an.Describe(an.Unwrap(x.Call.Args[0])) + ")"
 				}
 				return ""
 			}
+			// a private helper that resolves the slot of the match it is given
+			if h := an.StaticCallee(x); h != nil && an.InModule(h) && h.Blocks != nil && h.Signature.Results().Len() == 1 {
+				pi := -1
+				for i, a := range x.Call.Args {
+					if isMatch(a) && i < len(h.Params) {
+						pi = i
+					}
+				}
+				if pi >= 0 {
+					prm := h.Params[pi]
+					inner := func(w ssa.Value) bool {
+						if w == ssa.Value(prm) {
+							return true
+						}
+						if u, ok := w.(*ssa.UnOp); ok {
+							if a, ok := u.X.(*ssa.Alloc); ok && a.Comment == prm.Name() {
+								return true
+							}
+						}
+						return false
+					}
+					for _, ret := range an.Returns(h) {
+						if why := recordedIn(ret.Results[0], inner, depth+1); why != "" {
+							return "in " + short(h) + ": " + why
+						}
+					}
+					return ""
+				}
+			}
 		}
 		return "the slot is computed by " + an.Describe(v)
 	}
+	recorded := func(v ssa.Value, depth int) string { return recordedIn(v, site.isMatch, depth) }
 	n := 0
 	for _, c := range site.calls(rvSet) {
 		n++
